@@ -115,9 +115,9 @@ def cube_object(names, wav, aps, val, unc, order, with_unc=True, flux_unit='mJy'
 
 
 def build_cube(d, names, wav, aps, val, unc, order='desc', aperture_dependent=None, logd_step=0.02, pad=False, par_values=None,
-               table_names=None):
+               table_names=None, flux_unit='mJy'):
     """cube package: models.conf (version 2), flux.fits, parameters.fits"""
     apdep = (aps is not None) if aperture_dependent is None else aperture_dependent
     fw.write_conf(d, aperture_dependent=apdep, logd_step=logd_step, version=2)
-    cube_object(names, wav, aps, val, unc, order).write(os.path.join(d, 'flux.fits'))
+    cube_object(names, wav, aps, val, unc, order, flux_unit=flux_unit).write(os.path.join(d, 'flux.fits'))
     write_parameters(d, table_names or names, pad=pad, values=par_values)
